@@ -254,6 +254,8 @@ func init() {
 			{Fn: "H_two", Fuel: 30_000_000, Tier: "quick", Sched: true, Preempt: 2, Reach: []string{"end"}, NativeTwin: "N_reentrant"},
 			{Fn: "H_two_locals", Fuel: 30_000_000, Tier: "quick", Sched: true, Preempt: 2, Reach: []string{"end"}, NativeTwin: "N_reentrant"},
 			{Fn: "H_two_middleware", Fuel: 30_000_000, Tier: "quick", Sched: true, Preempt: 2, Reach: []string{"end"}, NativeTwin: "N_reentrant"},
+			{Fn: "H_two_constructs", Fuel: 30_000_000, Tier: "quick", Sched: true, Preempt: 1, Reach: []string{"end"}, NativeTwin: "N_reentrant"},
+			{Fn: "H_two_constructs", Fuel: 30_000_000, Tier: "thorough", Sched: true, Preempt: 2, Reach: []string{"end"}, NativeTwin: "N_reentrant"},
 			{Fn: "H_two", Fuel: 30_000_000, Tier: "thorough", Sched: true, Preempt: 3, Reach: []string{"end"}, NativeTwin: "N_reentrant"},
 			{Fn: "H_two_locals", Fuel: 30_000_000, Tier: "thorough", Sched: true, Preempt: 3, Reach: []string{"end"}, NativeTwin: "N_reentrant"},
 		},
